@@ -21,6 +21,7 @@ type callGraph struct {
 	callees  map[ssa.Instruction][]*ssa.Function
 	external map[ssa.Instruction]bool // may also reach code outside the repo
 	callers  map[*ssa.Function][]callSite
+	curFn    *ssa.Function // the function whose call is being resolved
 
 	fieldFuncs map[*types.Var][]*ssa.Function
 	addrTaken  []*ssa.Function
@@ -141,6 +142,7 @@ func (c *Ctx) CG() *callGraph {
 				if cc == nil {
 					return
 				}
+				g.curFn = fn
 				cs, ext := g.resolve(cc)
 				if ext {
 					// callbacks: a repo function (closure) handed to a function outside the repo — sync.Once.Do, sort.Slice,
@@ -294,7 +296,11 @@ func (g *callGraph) resolve(cc *ssa.CallCommon) (out []*ssa.Function, external b
 	sig, _ := cc.Value.Type().Underlying().(*types.Signature)
 	if sig != nil {
 		for _, f := range g.addrTaken {
-			if types.Identical(f.Signature, sig) {
+			// a func value of unknown origin: any address-taken function of that signature — of the caller's own package
+			// (an unnamed func value does not travel between the repo's packages other than through the struct fields,
+			// parameters and interfaces handled above; without this restriction a table of closures in one package
+			// would "call" the closures of every other package)
+			if types.Identical(f.Signature, sig) && (g.curFn == nil || pkgPathOf(f) == pkgPathOf(g.curFn)) {
 				out = append(out, f)
 			}
 		}
@@ -490,6 +496,37 @@ func (g *callGraph) traceFuncValue(v ssa.Value, depth int) (fns []*ssa.Function,
 			return nil, true
 		}
 	case *ssa.UnOp:
+		// an element of a slice/array built in the same function (a table of closures that is ranged over)
+		if ia, ok := x.X.(*ssa.IndexAddr); ok {
+			base := ia.X
+			if sl, ok := base.(*ssa.Slice); ok {
+				base = sl.X
+			}
+			if al, ok := base.(*ssa.Alloc); ok && al.Referrers() != nil {
+				var out []*ssa.Function
+				all := true
+				n := 0
+				for _, ref := range *al.Referrers() {
+					ia2, ok := ref.(*ssa.IndexAddr)
+					if !ok || ia2.Referrers() == nil {
+						continue
+					}
+					for _, r2 := range *ia2.Referrers() {
+						if st, ok := r2.(*ssa.Store); ok && st.Addr == ssa.Value(ia2) {
+							n++
+							fs, k := g.traceFuncValue(st.Val, depth+1)
+							if !k {
+								all = false
+							}
+							out = append(out, fs...)
+						}
+					}
+				}
+				if n > 0 && all {
+					return out, true
+				}
+			}
+		}
 		if gl, ok := x.X.(*ssa.Global); ok {
 			// package-level func variable: the functions the repo stores into it (the variable's own
 			// package may also set it when that package is outside the repo -> callers treat it as external too)
